@@ -169,3 +169,98 @@ Theorem C07_store_message_data : forall kw ls l s,
   wf_response (print_stream (render_all kw (snd (System.step sy l)))) = true.
 Proof. exact store_step_stream_wf. Qed.
 Print Assumptions C07_store_message_data.
+
+(* ============ the hypothesis [wf_resp], proved for the FETCH content items ============ *)
+(* Resp/FetchProducer.v models what builds the fetch values of a message:
+   pymap/fetch.py (MessageAttributes._get, every fetch value class, _get_data,
+   _get_partial), pymap/message.py (_get_body_structure, _get_envelope_structure,
+   get_size, get_body(binary=True)), the Content-Type decision of
+   pymap/mime/__init__.py (MessageBody._parse, _get_boundary) and the envelope /
+   address-list rules of parsing/response/fetch.py, on top of C03's model of the
+   line index and the part tree (Mime/).  [d] is the message literal (any
+   bytes); [hd] is what the stdlib email package decided for the header lines of
+   each part (content type with parameters, disposition, id, description,
+   encoding, language, location, date, subject, address headers, ...): arbitrary
+   data, of which only [hd_ok] is assumed -- maintype / subtype are results of
+   str.lower() and a parsed Date is a datetime.datetime; [dec] is the decoded
+   body of a part (base64 / quoted-printable), arbitrary. *)
+From PV Require Mime.Lines Mime.Parts.
+From PV Require Import Resp.FetchProducer Resp.FetchProducerProofs.
+
+(* BODY / BODYSTRUCTURE: for every literal, whatever nesting the parse finds,
+   _get_body_structure raises nothing (message/rfc822 always has its nested
+   message) and builds a structure that satisfies the hypotheses of C07 *)
+Theorem C07_bodystructure_producer : forall d hd,
+  (forall hl, hd_ok (hd hl) = true) -> forall c,
+  Parts.parse d (ct hd) = Ok c ->
+  exists b, body_of_content d hd c = Ok b /\ wf_body b = true.
+Proof. exact bodystructure_producer. Qed.
+Print Assumptions C07_bodystructure_producer.
+
+(* ENVELOPE (of the message and of every nested message) *)
+Theorem C07_envelope_producer : forall hd,
+  (forall hl, hd_ok (hd hl) = true) -> forall hl, wf_envelope (envelope_of (hdx hd hl)) = true.
+Proof. exact envelope_producer. Qed.
+Print Assumptions C07_envelope_producer.
+
+(* the whole FETCH response: every message, every list of attributes that
+   FetchAttribute.parse builds ([wf_fattr]: known specifier, MIME after part
+   numbers, non-empty HEADER.FIELDS list, BINARY without specifier), sequence
+   number and UID non-zero, flags / object ids as their parsers build them:
+   the response object exists (no exception), satisfies [wf_resp], and its bytes
+   are a well-formed response *)
+Theorem C07_fetch_content : forall d hd dec seq m attrs,
+  (forall hl, hd_ok (hd hl) = true) ->
+  pos seq = true -> wf_meta m = true -> attrs <> [] -> forallb wf_fattr attrs = true ->
+  exists r, fetch_response d hd dec seq m attrs = Ok r /\ wf_resp r = true /\
+            wf_response (print_stream [r]) = true.
+Proof. exact fetch_content_lemma. Qed.
+Print Assumptions C07_fetch_content.
+
+(* the hypotheses are satisfiable: a multipart message with a text part and a
+   message/rfc822 part, six attributes; the model's response, its bytes *)
+Theorem C07_fetch_content_example :
+  (forall hl, hd_ok (ex_hd hl) = true) /\ wf_meta ex_meta = true /\
+  forallb wf_fattr ex_attrs = true /\
+  option_map print_resp ex_result = Some ex_expected /\
+  option_map wf_resp ex_result = Some true /\ wf_response ex_expected = true.
+Proof. exact fetch_example. Qed.
+Print Assumptions C07_fetch_content_example.
+
+(* [hd_ok] cannot be dropped: a maintype "TEXT" (not lower-cased) would make
+   _get_body_structure build a ContentBodyStructure whose bytes lack the line
+   count the grammar demands after "TEXT" *)
+Theorem C07_lowered_needed :
+  exists d r, hd_ok (up_hd []) = false /\
+    fetch_response d up_hd (fun _ => None) 1 ex_meta [ABody] = Ok r /\
+    wf_resp r = false /\ wf_response (print_stream [r]) = false.
+Proof. exact lowered_needed. Qed.
+Print Assumptions C07_lowered_needed.
+
+(* ============ flags of the maildir backend (dovecot-keywords) ============ *)
+(* Resp/Keywords.v models MaildirFlags.read / from_maildir / permanent_flags and
+   Flag().  Whatever the dovecot-keywords file of a folder contains (the lines
+   as str.split() cuts them: any index, any keyword) and whatever letters the
+   file name of a message carries: if the file is accepted at all, the flags the
+   backend hands to the producers are flags of the RFC, so that the FLAGS and
+   PERMANENTFLAGS responses of SELECT / EXAMINE and the FETCH FLAGS item satisfy
+   [wf_resp] (and print to well-formed bytes by C07). *)
+From PV Require Import Resp.Keywords Resp.KeywordsProofs.
+Theorem C07_maildir_keywords : forall ls t codes seq,
+  read_kws ls [] = Some t -> pos seq = true ->
+  let perm := permanent_flags (read_names ls) in
+  forallb wf_flag perm = true /\
+  forallb wf_flag (from_maildir t codes) = true /\
+  wf_resp (RFlags (perm ++ [RECENT_FLAG])) = true /\
+  wf_resp (RCond None OK (Some (CPermanentFlags perm)) FLAGS_PERMITTED) = true /\
+  wf_resp (RFetch seq [FFlags (from_maildir t codes)]) = true.
+Proof. exact maildir_keywords_wf. Qed.
+Print Assumptions C07_maildir_keywords.
+
+(* the reader must refuse keywords that are not atoms: "kw(x" (accepted before
+   the fix 6252117) is no flag and FLAGS (kw(x) is not a well-formed response *)
+Theorem C07_non_atom_keyword_rejected :
+  read_kw 1 KW_BAD = KwSkip /\ wf_flag KW_BAD = false /\
+  wf_response (print_resp (RFlags [KW_BAD])) = false.
+Proof. exact non_atom_keyword_rejected. Qed.
+Print Assumptions C07_non_atom_keyword_rejected.
